@@ -1,7 +1,8 @@
 // Harness for C15: interprets scripts against
 //   case <tag> dir|undir     Bpp/Graph/TreeGraphImpl.h instantiated at GlobalGraph           (ops t.*)
 //   case <tag> dag           Bpp/Graph/DAGraphImpl.h instantiated at GlobalGraph            (ops d.*)
-//   case <tag> obsdir|obsundir  Bpp/Graph/AssociationTreeGraphImplObserver.h (objects = labels) (ops o.*)
+//   case <tag> obsdir|obsundir  Bpp/Graph/AssociationTreeGraphImplObserver.h (objects by identity) (ops o.*)
+//   case <tag> obsdag        Bpp/Graph/AssociationDAGraphImplObserver.h (objects by identity)       (ops w.*)
 // The raw node/edge tables and the observer's maps are read through the befriended-template trick
 // of harness/C14.cpp; the cached validity flag of the tree through the guarded hook
 // verifCachedValid(), the two protected flags of the DAG through a derived class.
@@ -16,6 +17,7 @@
 #include <Bpp/Graph/TreeGraphImpl.h>
 #include <Bpp/Graph/DAGraphImpl.h>
 #include <Bpp/Graph/AssociationTreeGraphImplObserver.h>
+#include <Bpp/Graph/AssociationDAGraphImplObserver.h>
 #include <algorithm>
 #include <csignal>
 #include <cstdio>
@@ -78,12 +80,52 @@ static std::string graphState(GlobalGraph& G) {
 
 struct Machine { virtual ~Machine() {} virtual std::string op(const Toks& k) = 0; };
 
+// several containers side by side (slot 0 is the one the case starts with): copy construction, assignment,
+// and assignment of the GlobalGraph part through the base class.  `h.sel k` chooses the container the t.* / d.*
+// operations act on.  After every operation the state of EVERY live container is printed (`#` between slots,
+// `-` for an empty slot below the last live one), so that a change leaking into another container shows.
+template<class C> struct Heap {
+  static const int NS = 3;
+  std::unique_ptr<C> slot[NS];
+  int sel;
+  Heap() : sel(0) {}
+  C* cur() { return slot[sel].get(); }
+  static bool okSlot(long k) { return k >= 0 && k < NS; }
+  // returns "" when the operation is not a heap operation
+  std::string heapOp(const Toks& k) {
+    const std::string& o = k[0];
+    if (o == "h.sel") { long a = toI(k[1]); if (!okSlot(a) || !slot[a]) return "bad-slot"; sel = (int)a; return "ok"; }
+    if (o == "h.copy" || o == "h.assign" || o == "h.gassign") {
+      long j = toI(k[1]), d = toI(k[2]);
+      if (!okSlot(j) || !okSlot(d) || !slot[j]) return "bad-slot";
+      if (o == "h.copy") {
+        if (j == d) return "bad-slot";
+        slot[d].reset(new C(*slot[j]));            // the (implicit) copy constructor of the container
+        return "ok";
+      }
+      if (!slot[d]) return "bad-slot";
+      if (o == "h.assign") { *slot[d] = *slot[j]; return "ok"; }   // the (implicit) operator= of the container
+      // GlobalGraph::operator= reached through the base class
+      static_cast<GlobalGraph&>(*slot[d]) = static_cast<const GlobalGraph&>(*slot[j]);
+      return "ok";
+    }
+    return "";
+  }
+  template<class F> std::string state(F one) {
+    int last = 0; for (int k = 0; k < NS; ++k) if (slot[k]) last = k;
+    std::string s;
+    for (int k = 0; k <= last; ++k) { if (k) s += "# "; s += slot[k] ? one(*slot[k]) : std::string("- "); }
+    return s;
+  }
+};
+
 struct M : Machine {
-  std::unique_ptr<Tree> t;
-  explicit M(bool rooted) : t(new Tree(rooted)) {}
+  Heap<Tree> h;
+  Tree* t;
+  explicit M(bool rooted) { h.slot[0].reset(new Tree(rooted)); t = h.cur(); }
 
   std::string state() {
-    return graphState(*t) + "V " + B(t->verifCachedValid());
+    return h.state([](Tree& x) { return graphState(x) + "V " + B(x.verifCachedValid()) + " "; });
   }
   // the node where climbing by single fathers ends; -1 when the climb itself would raise, -2 when it cycles
   long climbEnd(unsigned n) {
@@ -100,6 +142,7 @@ struct M : Machine {
   }
 
   std::string treeOp(const Toks& k) {
+    if (k[0].compare(0, 2, "h.") == 0) { std::string r = h.heapOp(k); t = h.cur(); return r.empty() ? "bad-op" : r; }
     Tree& T = *t;
     const Tree& C = T;
     GlobalGraph& G = T;
@@ -120,6 +163,7 @@ struct M : Machine {
     if (o == "t.linkE") { Peek::linkE(G, toU(k[1]), toU(k[2]), toU(k[3])); return "ok"; }
     if (o == "t.rootAt") { T.rootAt(toU(k[1])); return "ok"; }
     if (o == "t.unRoot") { T.unRoot(toU(k[1]) != 0); return "ok"; }
+    if (o == "t.setOutGroup") { T.setOutGroup(toU(k[1])); return "ok"; }
     // ---- queries
     if (o == "t.valid") return B(T.isValid());
     if (o == "t.qn") {
@@ -136,14 +180,14 @@ struct M : Machine {
     if (o == "t.leavesUnder") {
       // the recursion does not terminate on a cycle reachable from the node: only on valid trees
       if (!T.isValid()) return "notvalid";
-      // on an unrooted (undirected) tree the sons of a son include the node itself: the recursion may never return
-      if (!Peek::directed(G)) return "unrooted";
+      // an unrooted (undirected) tree is refused (as repaired)
       return "l " + list(C.getLeavesUnderNode(toU(k[1])));
     }
     if (o == "t.path" || o == "t.epath") {
       unsigned a = toU(k[1]), b = toU(k[2]);
       bool inc = o == "t.epath" || toU(k[3]) != 0;
-      if (Peek::nodes(G).count(a) && Peek::nodes(G).count(b)) {
+      // an unrooted tree is refused before anything is climbed (as repaired)
+      if (Peek::directed(G) && Peek::nodes(G).count(a) && Peek::nodes(G).count(b)) {
         long ea = climbEnd(a), eb = climbEnd(b);
         if (ea == -2 || eb == -2) return "skip-cycle";
         if (ea >= 0 && eb >= 0 && ea != eb && inc) return "ub";
@@ -177,15 +221,20 @@ struct M : Machine {
 // ---------------------------------------------------------------------------------------- DAG
 struct Dag : DAGraphImpl<GlobalGraph> {
   Dag() : DAGraphImpl<GlobalGraph>(true) {}
+  explicit Dag(bool) : DAGraphImpl<GlobalGraph>(true) {}
   bool cachedValid() const { return isValid_; }
   bool cachedRooted() const { return isRooted_; }
 };
 
 struct MD : Machine {
-  std::unique_ptr<Dag> d;
-  MD() : d(new Dag()) {}
-  std::string state() { return graphState(*d) + "V " + B(d->cachedValid()) + " R " + B(d->cachedRooted()); }
+  Heap<Dag> h;
+  Dag* d;
+  MD() { h.slot[0].reset(new Dag()); d = h.cur(); }
+  std::string state() {
+    return h.state([](Dag& x) { return graphState(x) + "V " + B(x.cachedValid()) + " R " + B(x.cachedRooted()) + " "; });
+  }
   std::string dagOp(const Toks& k) {
+    if (k[0].compare(0, 2, "h.") == 0) { std::string r = h.heapOp(k); d = h.cur(); return r.empty() ? "bad-op" : r; }
     Dag& D = *d; const Dag& C = D; GlobalGraph& G = D;
     const std::string& o = k[0];
     if (o == "d.createNode") return U(D.createNode());
@@ -202,6 +251,7 @@ struct MD : Machine {
     if (o == "d.removeFather") { D.removeFather(toU(k[1]), toU(k[2])); return "ok"; }
     if (o == "d.removeSons") return "l " + list(D.removeSons(toU(k[1])));
     if (o == "d.removeFathers") return "l " + list(D.removeFathers(toU(k[1])));
+    if (o == "d.rootAt") { D.rootAt(toU(k[1])); return "ok"; }
     if (o == "d.valid") return B(D.isValid());
     if (o == "d.rooted") return B(C.isRooted());
     if (o == "d.belowN") return "l " + list(C.getBelowNodes(toU(k[1])));
@@ -240,36 +290,91 @@ typedef std::shared_ptr<EObj> EP;
 
 struct MO : Machine {
   static const int POOL = 12;
-  std::unique_ptr<TObs> obs;
-  NP np[POOL]; EP ep[POOL];
-  explicit MO(bool rooted) : obs(new TObs(rooted)) {
-    for (int i = 0; i < POOL; ++i) { np[i].reset(new NObj(i)); ep[i].reset(new EObj(i)); }
+  static const int NOBS = 3;
+  // observer slots on ONE shared tree graph (copies of an observer observe the graph of the original); every slot
+  // has its own pool of objects; `o.sel k` chooses the observer the o.* operations go through
+  std::unique_ptr<TObs> obs[NOBS];
+  NP np[NOBS][POOL]; EP ep[NOBS][POOL];
+  int sel;
+  explicit MO(bool rooted) : sel(0) {
+    obs[0].reset(new TObs(rooted));
+    for (int k = 0; k < NOBS; ++k) freshPool(k);
   }
-  template<class P> static std::string lab(const P& p) { return p ? U((unsigned long)p->label) : std::string("-"); }
-  template<class Vec> static std::string vec(const Vec& v) { std::string s; for (auto& p : v) s += lab(p) + " "; return s; }
-  template<class Map> static std::string mp(const Map& m) {
-    std::vector<std::pair<long, unsigned>> v;
-    for (auto& kv : m) v.push_back(std::make_pair(kv.first ? (long)kv.first->label : -1L, kv.second));
+  void freshPool(int k) { for (int i = 0; i < POOL; ++i) { np[k][i].reset(new NObj(i)); ep[k][i].reset(new EObj(i)); } }
+  // which pool owns the object (by pointer); -1 = none
+  int ownerOf(const NP& p) const { int l = p->label; if (l < 0 || l >= POOL) return -1; for (int j = 0; j < NOBS; ++j) if (np[j][l] == p) return j; return -1; }
+  int ownerOf(const EP& p) const { int l = p->label; if (l < 0 || l >= POOL) return -1; for (int j = 0; j < NOBS; ++j) if (ep[j][l] == p) return j; return -1; }
+  // the object actually held, seen from observer k: `l` (an object of k's own pool), `l@j` (of the pool of observer j),
+  // `l@?` (of no pool), `-` (null)
+  template<class P> std::string lab(int k, const P& p) const {
+    if (!p) return "-";
+    int j = ownerOf(p);
+    std::string s = U((unsigned long)p->label);
+    if (j == k) return s;
+    return s + "@" + (j < 0 ? std::string("?") : U((unsigned long)j));
+  }
+  template<class Vec> std::string vec(int k, const Vec& v) const { std::string s; for (auto& p : v) s += lab(k, p) + " "; return s; }
+  template<class Map> std::string mp(int k, const Map& m) const {
+    std::vector<std::pair<std::pair<long, std::string>, unsigned>> v;
+    for (auto& kv : m) v.push_back(std::make_pair(std::make_pair(kv.first ? (long)kv.first->label : -1L, lab(k, kv.first)), kv.second));
     std::sort(v.begin(), v.end());
-    std::string s; for (auto& x : v) s += (x.first < 0 ? std::string("-") : U((unsigned long)x.first)) + ":" + U(x.second) + " ";
+    std::string s; for (auto& x : v) s += x.first.second + ":" + U(x.second) + " ";
     return s;
   }
   std::string state() {
-    TObs& o = *obs;
-    std::string s = graphState(*o.getGraph());
-    s += "X 0 gN " + vec(Peek::gN(o)) + "gE " + vec(Peek::gE(o)) + "Ng " + mp(Peek::Ng(o)) + "Eg " + mp(Peek::Eg(o))
-      + "iN " + vec(Peek::iN(o)) + "iE " + vec(Peek::iE(o)) + "Ni " + mp(Peek::Ni(o)) + "Ei " + mp(Peek::Ei(o));
-    s += "V " + B(o.getGraph()->verifCachedValid());
+    std::string s = graphState(*obs[0]->getGraph());
+    for (int k = 0; k < NOBS; ++k) if (obs[k]) {
+      TObs& o = *obs[k];
+      s += "X " + U(k) + " gN " + vec(k, Peek::gN(o)) + "gE " + vec(k, Peek::gE(o)) + "Ng " + mp(k, Peek::Ng(o)) + "Eg " + mp(k, Peek::Eg(o))
+        + "iN " + vec(k, Peek::iN(o)) + "iE " + vec(k, Peek::iE(o)) + "Ni " + mp(k, Peek::Ni(o)) + "Ei " + mp(k, Peek::Ei(o));
+    }
+    s += "V " + B(obs[0]->getGraph()->verifCachedValid());
     return s;
   }
   static int lbl(const std::string& s) { return s == "-" ? -1 : (int)toI(s); }
-  NP N(int l) { return l < 0 ? NP() : np[l % POOL]; }
-  EP E(int l) { return l < 0 ? EP() : ep[l % POOL]; }
-  template<class V> static std::string labs(const V& v) { std::string s; for (auto& p : v) s += lab(p) + " "; return s; }
+  NP N(int l) { return l < 0 ? NP() : np[sel][l % POOL]; }
+  EP E(int l) { return l < 0 ? EP() : ep[sel][l % POOL]; }
+  template<class V> std::string labs(const V& v) { std::string s; for (auto& p : v) s += lab(sel, p) + " "; return s; }
+  template<class P> std::string lab1(const P& p) { return lab(sel, p); }
+  // vector operator[] with an id beyond the size would be undefined behaviour in the copy loops
+  bool copyUndefined(TObs& src) {
+    for (auto& kv : Peek::Ng(src)) if (kv.second >= Peek::gN(src).size()) return true;
+    for (auto& kv : Peek::Eg(src)) if (kv.second >= Peek::gE(src).size()) return true;
+    return false;
+  }
+  // observer k has just been (re)built as a copy of observer j: it owns new objects.  The pool of slot k is rebuilt from
+  // the keys of its object->id maps - but an object that already belongs to a pool (the source's, say) is not adopted:
+  // it is reported as `l@j`.
+  std::string adopt(int j, int k) {
+    bool same = obs[k]->getGraph().get() == obs[j]->getGraph().get();
+    freshPool(k);
+    for (auto& kv : Peek::Ng(*obs[k])) { if (!kv.first) continue; int l = kv.first->label; if (ownerOf(kv.first) < 0 && l >= 0 && l < POOL) np[k][l] = kv.first; }
+    for (auto& kv : Peek::Eg(*obs[k])) { if (!kv.first) continue; int l = kv.first->label; if (ownerOf(kv.first) < 0 && l >= 0 && l < POOL) ep[k][l] = kv.first; }
+    return std::string("ok shared ") + B(same);
+  }
 
   std::string obsOp(const Toks& t) {
-    TObs& o = *obs; const TObs& c = o;
     const std::string& op = t[0];
+    if (op == "o.sel") { long k = toI(t[1]); if (k < 0 || k >= NOBS || !obs[k]) return "bad-slot"; sel = (int)k; return "ok"; }
+    if (op == "o.copy" || op == "o.clone" || op == "o.assign") {
+      long j = toI(t[1]), k = toI(t[2]);
+      if (j < 0 || j >= NOBS || k < 0 || k >= NOBS || !obs[j]) return "bad-slot";
+      if (op == "o.assign") {
+        if (!obs[k]) return "bad-slot";
+        if (j != k && copyUndefined(*obs[j])) return "ub";
+        *obs[k] = *obs[j];                                  // AssociationTreeGraphImplObserver::operator=
+        if (j == k) return "ok self";
+        return adopt((int)j, (int)k);
+      }
+      if (j == k || k == 0) return "bad-slot";              // slot 0 holds the graph of the case
+      if (copyUndefined(*obs[j])) return "ub";
+      obs[k].reset();
+      if (op == "o.copy") obs[k].reset(new TObs(*obs[j]));  // the copy constructor of the tree observer
+      else obs[k].reset(obs[j]->clone());                   // clone()
+      if (!obs[sel]) sel = 0;
+      return adopt((int)j, (int)k);
+    }
+    TObs& o = *obs[sel]; const TObs& c = o;
     if (op == "o.createNode") { o.createNode(N(lbl(t[1]))); return "ok"; }
     if (op == "o.link") { o.link(N(lbl(t[1])), N(lbl(t[2])), E(lbl(t[3]))); return "ok"; }
     if (op == "o.unlink") { o.unlink(N(lbl(t[1])), N(lbl(t[2]))); return "ok"; }
@@ -283,18 +388,157 @@ struct MO : Machine {
       o.setFather(N(lbl(t[1])), N(lbl(t[2])), cur);
       return "ok";
     }
+    if (op == "o.removeSon") { o.removeSon(N(lbl(t[1])), N(lbl(t[2]))); return "ok"; }
+    if (op == "o.removeSons") return "l " + labs(o.removeSons(N(lbl(t[1]))));
     if (op == "o.rootAt") { o.rootAt(N(lbl(t[1]))); return "ok"; }
     if (op == "o.valid") return B(c.isValid());
     if (op == "o.qn") {
       NP a = N(lbl(t[1]));
       std::string s;
-      s += "fa " + q([&] { return lab(c.getFatherOfNode(a)) + " "; }) + "ef " + q([&] { return lab(c.getEdgeToFather(a)) + " "; });
+      s += "fa " + q([&] { return lab1(c.getFatherOfNode(a)) + " "; }) + "ef " + q([&] { return lab1(c.getEdgeToFather(a)) + " "; });
       s += "sons " + q([&] { return labs(c.getSons(a)); }) + "br " + q([&] { return labs(c.getBranches(a)); });
       return s;
     }
     if (op == "o.qp") {
       NP a = N(lbl(t[1])), b = N(lbl(t[2]));
-      return "linking " + q([&] { return lab(c.getEdgeLinking(a, b)) + " "; });
+      return "linking " + q([&] { return lab1(c.getEdgeLinking(a, b)) + " "; });
+    }
+    if (op == "o.qt") {
+      // the object-level queries of a valid rooted tree (the harness does not call them otherwise: cycles do not return)
+      if (!c.isValid() || !c.isRooted()) return "notrooted";
+      NP a = N(lbl(t[1])), b = N(lbl(t[2]));
+      std::string s;
+      s += "hf " + q([&] { return B(c.hasFather(a)) + " "; }) + "ns " + q([&] { return U(c.getNumberOfSons(a)) + " "; });
+      s += "lu " + q([&] { return labs(c.getLeavesUnderNode(a)); }) + "sn " + q([&] { return labs(c.getSubtreeNodes(a)); });
+      s += "se " + q([&] { return labs(c.getSubtreeEdges(a)); });
+      s += "np " + q([&] { return labs(c.getNodePathBetweenTwoNodes(a, b)); }) + "ep " + q([&] { return labs(c.getEdgePathBetweenTwoNodes(a, b)); });
+      s += "mr " + q([&] { std::vector<NP> v; v.push_back(a); v.push_back(b); return lab1(c.MRCA(v)) + " "; });
+      return s;
+    }
+    return "bad-op";
+  }
+  std::string op(const Toks& t) {
+    std::string r;
+    try { r = obsOp(t); }
+    catch (Exception&) { r = "exc:bpp"; }
+    catch (std::exception&) { r = "exc:std"; }
+    return r + " ; " + state();
+  }
+};
+
+// ------------------------------------------------------------------------- DAG observer
+typedef AssociationDAGraphImplObserver<NObj, EObj, Dag> DObs;
+
+struct MOD : Machine {
+  static const int POOL = 12;
+  static const int NOBS = 3;
+  std::unique_ptr<DObs> obs[NOBS];
+  NP np[NOBS][POOL]; EP ep[NOBS][POOL];
+  int sel;
+  MOD() : sel(0) {
+    obs[0].reset(new DObs());
+    for (int k = 0; k < NOBS; ++k) freshPool(k);
+  }
+  void freshPool(int k) { for (int i = 0; i < POOL; ++i) { np[k][i].reset(new NObj(i)); ep[k][i].reset(new EObj(i)); } }
+  int ownerOf(const NP& p) const { int l = p->label; if (l < 0 || l >= POOL) return -1; for (int j = 0; j < NOBS; ++j) if (np[j][l] == p) return j; return -1; }
+  int ownerOf(const EP& p) const { int l = p->label; if (l < 0 || l >= POOL) return -1; for (int j = 0; j < NOBS; ++j) if (ep[j][l] == p) return j; return -1; }
+  template<class P> std::string lab(int k, const P& p) const {
+    if (!p) return "-";
+    int j = ownerOf(p);
+    std::string s = U((unsigned long)p->label);
+    if (j == k) return s;
+    return s + "@" + (j < 0 ? std::string("?") : U((unsigned long)j));
+  }
+  template<class Vec> std::string vec(int k, const Vec& v) const { std::string s; for (auto& p : v) s += lab(k, p) + " "; return s; }
+  template<class Map> std::string mp(int k, const Map& m) const {
+    std::vector<std::pair<std::pair<long, std::string>, unsigned>> v;
+    for (auto& kv : m) v.push_back(std::make_pair(std::make_pair(kv.first ? (long)kv.first->label : -1L, lab(k, kv.first)), kv.second));
+    std::sort(v.begin(), v.end());
+    std::string s; for (auto& x : v) s += x.first.second + ":" + U(x.second) + " ";
+    return s;
+  }
+  std::string state() {
+    Dag& G = *obs[0]->getGraph();
+    std::string s = graphState(G);
+    for (int k = 0; k < NOBS; ++k) if (obs[k]) {
+      DObs& o = *obs[k];
+      s += "X " + U(k) + " gN " + vec(k, Peek::gN(o)) + "gE " + vec(k, Peek::gE(o)) + "Ng " + mp(k, Peek::Ng(o)) + "Eg " + mp(k, Peek::Eg(o))
+        + "iN " + vec(k, Peek::iN(o)) + "iE " + vec(k, Peek::iE(o)) + "Ni " + mp(k, Peek::Ni(o)) + "Ei " + mp(k, Peek::Ei(o));
+    }
+    s += "V " + B(G.cachedValid()) + " R " + B(G.cachedRooted());
+    return s;
+  }
+  static int lbl(const std::string& s) { return s == "-" ? -1 : (int)toI(s); }
+  NP N(int l) { return l < 0 ? NP() : np[sel][l % POOL]; }
+  EP E(int l) { return l < 0 ? EP() : ep[sel][l % POOL]; }
+  template<class V> std::string labs(const V& v) { std::string s; for (auto& p : v) s += lab(sel, p) + " "; return s; }
+  template<class P> std::string lab1(const P& p) { return lab(sel, p); }
+  bool copyUndefined(DObs& src) {
+    for (auto& kv : Peek::Ng(src)) if (kv.second >= Peek::gN(src).size()) return true;
+    for (auto& kv : Peek::Eg(src)) if (kv.second >= Peek::gE(src).size()) return true;
+    return false;
+  }
+  std::string adopt(int j, int k) {
+    bool same = obs[k]->getGraph().get() == obs[j]->getGraph().get();
+    freshPool(k);
+    for (auto& kv : Peek::Ng(*obs[k])) { if (!kv.first) continue; int l = kv.first->label; if (ownerOf(kv.first) < 0 && l >= 0 && l < POOL) np[k][l] = kv.first; }
+    for (auto& kv : Peek::Eg(*obs[k])) { if (!kv.first) continue; int l = kv.first->label; if (ownerOf(kv.first) < 0 && l >= 0 && l < POOL) ep[k][l] = kv.first; }
+    return std::string("ok shared ") + B(same);
+  }
+  std::string obsOp(const Toks& t) {
+    const std::string& op = t[0];
+    if (op == "w.sel") { long k = toI(t[1]); if (k < 0 || k >= NOBS || !obs[k]) return "bad-slot"; sel = (int)k; return "ok"; }
+    if (op == "w.copy" || op == "w.clone" || op == "w.assign") {
+      long j = toI(t[1]), k = toI(t[2]);
+      if (j < 0 || j >= NOBS || k < 0 || k >= NOBS || !obs[j]) return "bad-slot";
+      if (op == "w.assign") {
+        if (!obs[k]) return "bad-slot";
+        if (j != k && copyUndefined(*obs[j])) return "ub";
+        *obs[k] = *obs[j];                                  // AssociationDAGraphImplObserver::operator=
+        if (j == k) return "ok self";
+        return adopt((int)j, (int)k);
+      }
+      if (j == k || k == 0) return "bad-slot";
+      if (copyUndefined(*obs[j])) return "ub";
+      obs[k].reset();
+      if (op == "w.copy") obs[k].reset(new DObs(*obs[j]));  // the copy constructor of the DAG observer
+      else obs[k].reset(obs[j]->clone());                   // clone()
+      if (!obs[sel]) sel = 0;
+      return adopt((int)j, (int)k);
+    }
+    DObs& o = *obs[sel]; const DObs& c = o;
+    Dag& G = *o.getGraph();
+    if (op == "w.createNode") { o.createNode(N(lbl(t[1]))); return "ok"; }
+    if (op == "w.link") { o.link(N(lbl(t[1])), N(lbl(t[2])), E(lbl(t[3]))); return "ok"; }
+    if (op == "w.unlink") { o.unlink(N(lbl(t[1])), N(lbl(t[2]))); return "ok"; }
+    if (op == "w.deleteNode") { o.deleteNode(N(lbl(t[1]))); return "ok"; }
+    if (op == "w.addFather") { o.addFather(N(lbl(t[1])), N(lbl(t[2])), E(lbl(t[3]))); return "ok"; }
+    if (op == "w.addSon") { o.addSon(N(lbl(t[1])), N(lbl(t[2])), E(lbl(t[3]))); return "ok"; }
+    if (op == "w.removeFather") { o.removeFather(N(lbl(t[1])), N(lbl(t[2]))); return "ok"; }
+    if (op == "w.removeSon") { o.removeSon(N(lbl(t[1])), N(lbl(t[2]))); return "ok"; }
+    if (op == "w.removeFathers") return "l " + labs(o.removeFathers(N(lbl(t[1]))));
+    if (op == "w.removeSons") return "l " + labs(o.removeSons(N(lbl(t[1]))));
+    if (op == "w.rootAt") { o.rootAt(N(lbl(t[1]))); return "ok"; }
+    if (op == "w.valid") return B(c.isValid());
+    if (op == "w.rooted") return B(c.isRooted());
+    if (op == "w.qn") {
+      NP a = N(lbl(t[1]));
+      std::string s;
+      s += "hf " + q([&] { return B(c.hasFather(a)) + " "; }) + "fa " + q([&] { return labs(c.getFathers(a)); });
+      s += "nf " + q([&] { return U(c.getNumberOfFathers(a)) + " "; });
+      s += "sons " + q([&] { return labs(c.getSons(a)); }) + "ns " + q([&] { return U(c.getNumberOfSons(a)) + " "; });
+      return s;
+    }
+    if (op == "w.qe") {
+      EP x = E(lbl(t[1]));
+      return "son " + q([&] { return lab1(c.getSon(x)) + " "; }) + "fa " + q([&] { return lab1(c.getFatherOfEdge(x)) + " "; });
+    }
+    if (op == "w.below") {
+      // getBelowNodes / getBelowEdges check the validity themselves; getLeavesUnderNode does not (a cycle would not return)
+      NP a = N(lbl(t[1]));
+      std::string s = "bn " + q([&] { return labs(o.getBelowNodes(a)); }) + "be " + q([&] { return labs(o.getBelowEdges(a)); });
+      if (!G.isValid()) return s + "lu notvalid";
+      return s + "lu " + q([&] { return labs(c.getLeavesUnderNode(a)); });
     }
     return "bad-op";
   }
@@ -318,6 +562,7 @@ static void onAlarm(int) { _exit(97); }
 static Machine* makeMachine(const Toks& t) {
   std::string kind = t.size() > 2 ? t[2] : "dir";
   if (kind == "dag") return new MD();
+  if (kind == "obsdag") return new MOD();
   if (kind == "obsdir") return new MO(true);
   if (kind == "obsundir") return new MO(false);
   return new M(kind != "undir");
